@@ -674,6 +674,11 @@ pub async fn process_fully_buffered_changes(
                 version: Some(version),
             })?;
 
+            #[cfg(feature = "verif")]
+            if rows_present {
+                klukai_types::verif::applied_push(actor_id.to_bytes(), version.0);
+            }
+
             bookedw.commit_snapshot(snap);
             // the version is applied now: it is no longer partial (its buffered rows get
             // cleared), later chunks of it are duplicates
@@ -1002,6 +1007,11 @@ pub async fn process_multiple_changes(
         let elapsed = sub_start.elapsed();
         if elapsed >= PROCESSING_WARN_THRESHOLD {
             warn!("process_multiple_changes: commiting transaction took too long - {elapsed:?}");
+        }
+
+        #[cfg(feature = "verif")]
+        for (actor_id, changeset, _, _) in changesets.iter() {
+            klukai_types::verif::applied_push(actor_id.to_bytes(), changeset.versions().start().0);
         }
 
         for (_, changeset, _, _) in changesets.iter() {
